@@ -162,6 +162,39 @@ namespace east {
     return r + i + 0.5L * i2 + i * i2 * (1.L / 6 - i2 * (1.L / 30 - i2 * (1.L / 42 - i2 / 30)));
   }
 
+#define EAST_DECL(NAME)            \
+  inline R f_##NAME(const R);       \
+  inline E f_##NAME(const E&);      \
+  template <typename T>             \
+  Dual<T> f_##NAME(const Dual<T>&);
+  EAST_DECL(exp)
+  EAST_DECL(exp2)
+  EAST_DECL(expm1)
+  EAST_DECL(cbrt)
+  EAST_DECL(sqrt)
+  EAST_DECL(log)
+  EAST_DECL(log10)
+  EAST_DECL(log2)
+  EAST_DECL(log1p)
+  EAST_DECL(cosh)
+  EAST_DECL(sinh)
+  EAST_DECL(tanh)
+  EAST_DECL(acosh)
+  EAST_DECL(asinh)
+  EAST_DECL(atanh)
+  EAST_DECL(sin)
+  EAST_DECL(cos)
+  EAST_DECL(tan)
+  EAST_DECL(acos)
+  EAST_DECL(asin)
+  EAST_DECL(atan)
+  EAST_DECL(erf)
+  EAST_DECL(erfc)
+  EAST_DECL(digamma)
+  EAST_DECL(tgamma)
+  EAST_DECL(lgamma)
+#undef EAST_DECL
+
 /*!
  * NAME: f_<name>;  RFUN: long double implementation (expression in x);
  * DR: derivative as a long double expression in x (error propagation);
@@ -445,6 +478,8 @@ namespace east {
     //! user functions (Call): body + number of arguments; evaluated with vars = arguments
     std::vector<std::pair<NP, int>> calls;
     const std::vector<CstInfo>* csts = nullptr;
+    //! when set: outcome of every comparison met, in evaluation order (branch signature)
+    std::string* trace = nullptr;
   };
 
   template <typename T>
@@ -463,14 +498,16 @@ namespace east {
           const R margin = 1e4L * (ea + eb) + 1e-9L * (1 + fabsl(x) + fabsl(y));
           if (!std::is_same_v<T, R> && !(fabsl(x - y) > margin)) throw Ill{"comparison at the switching surface"};
         }
+        bool r = false;
         switch (l.op) {
-          case EQ: return x == y;
-          case LT: return x < y;
-          case LE: return x <= y;
-          case GT: return x > y;
-          case GE: return x >= y;
+          case EQ: r = x == y; break;
+          case LT: r = x < y; break;
+          case LE: r = x <= y; break;
+          case GT: r = x > y; break;
+          case GE: r = x >= y; break;
         }
-        return false;
+        if (env.trace != nullptr) env.trace->push_back(r ? '1' : '0');
+        return r;
       }
       case Logic::Not: return !evalLogic<T>(*l.ch[0], env);
       case Logic::And: {
@@ -546,6 +583,7 @@ namespace east {
         e2.pars = env.pars;
         e2.calls = env.calls;
         e2.csts = env.csts;
+        e2.trace = env.trace;
         for (const auto& a : n.args) e2.vars.push_back(eval<T>(*a, env));
         return eval<T>(*env.calls.at(n.id).first, e2);
       }
@@ -606,6 +644,24 @@ namespace east {
     for (const auto& a : n.args)
       if (dependsOn(*a, v)) return true;
     return false;
+  }
+  //! does the tree hold any variable / any external parameter or function
+  inline void leavesOf(const Node& n, bool& anyVar, bool& anyExt) {
+    if (n.k == K::Var) anyVar = true;
+    if (n.k == K::Par || n.k == K::Call) anyExt = true;
+    if (n.a) leavesOf(*n.a, anyVar, anyExt);
+    if (n.b) leavesOf(*n.b, anyVar, anyExt);
+    if (n.c) {
+      std::function<void(const Logic&)> rec = [&](const Logic& l) {
+        if (l.k == Logic::Cmp) {
+          leavesOf(*l.a, anyVar, anyExt);
+          leavesOf(*l.b, anyVar, anyExt);
+        }
+        for (const auto& c : l.ch) rec(*c);
+      };
+      rec(*n.c);
+    }
+    for (const auto& a : n.args) leavesOf(*a, anyVar, anyExt);
   }
   //! largest number of operator/function nodes above an occurrence of variable v
   inline int nestingOf(const Node& n, const int v, const int above = 0) {
@@ -1024,6 +1080,8 @@ namespace east {
     //! (C13.deps.nested_same_function), never generated unless allowed
     std::set<int> activeCalls;
     bool allowNestedSameCall = false;
+    bool allowIntegerParameterExponent = false;
+    int avoidedIntegerExponents = 0;
     int avoidedNestedCalls = 0;
 
     Generator(verif::Case& cc, const GenOptions& oo) : c(cc), o(oo) {}
@@ -1398,6 +1456,16 @@ namespace east {
           if (!(a->val >= 0.05L && a->val <= 20)) a = fit(a, 0.1, 10);
           auto b = gen(depth - 1);
           if (!(fabsl(b->val) <= 6)) b = fit(b, -4, 4);
+          {
+            // known finding C13.deps.integer_exponent_parameter: an exponent without variable holding an
+            // external parameter / function whose current value is an integer is frozen into power<N>
+            bool anyVar = false, anyExt = false;
+            leavesOf(*b, anyVar, anyExt);
+            if (!anyVar && anyExt && b->val == floorl(b->val) && !allowIntegerParameterExponent) {
+              ++avoidedIntegerExponents;
+              b = binary(K::Add, b, number(0.25));
+            }
+          }
           // an exponent that is *exactly* a small integer takes the power<N> path: fine, same value
           return tame(binary(K::Pow, a, b));
         }
